@@ -310,6 +310,9 @@ def draw_invocation(rng: random.Random, design_fraction: float) -> dict:
     c = rng.choices(["corrupt", "valid_edit", "bytes", "none", "swap_between_reads"], [0.6, 0.12, 0.15, 0.08, 0.05])[0]
     if c != "none":
         inv["input_fault"] = {"class": c}
+    if rng.random() < 0.06:
+        # the tool's first or second read of the input file fails (EIO / EACCES)
+        inv["io_faults"] = [{"kind": "open_r", "nth": rng.choice([1, 2]), "errno": rng.choice([errno.EIO, errno.EACCES])}]
     if inv["flags"] in ("none",) and c in ("none", "valid_edit"):
         # would run a design: keep it at validation unless design runs are wanted
         inv["flags"] = "validate_only"
@@ -515,9 +518,14 @@ def oracle_c18(obs: dict):
             sec = obs["why"] if verdict != "valid" else obs["fault"]
             raise Violation("C18", "validation_verdict", f"validate_input_file says {tv}, schemas say {verdict} ({obs['why']}); "
                                                           f"fault={obs['fault']}", site=f"verdict:{verdict}:{sec.split(',')[0]}")
+    if any(k == "open_r" for k, _, _ in obs["io_fired"]) and st == 0:
+        raise Violation("C18", "exit0_despite_unreadable_input", f"reading the input failed ({obs['io_fired']}) but exit 0 "
+                                                                 f"(flags={flags})", site=f"{flags}:open_r")
     if "real_status" in obs and (obs["real_status"] == 0) != (st == 0):
         raise Violation("C18", "HARNESS_fidelity", f"in-process status {st} vs real process {obs['real_status']}", site=site)
     if flags == "validate_only":
+        if any(k == "open_r" for k, _, _ in obs["io_fired"]):
+            return "validate_only:read_fault"
         if (st == 0) != (verdict == "valid"):
             raise Violation("C18", "validate_only_status", f"--validate-only exit {st} on {verdict} input ({obs['why']}; "
                                                            f"fault={obs['fault']})", site=site)
